@@ -67,6 +67,7 @@ type SrvConn struct {
 	ProtoErrs  []string
 	handshaken bool
 	BadPreface bool
+	Stalled    bool // the scripted server has stopped reading: nothing is taken off the transport
 }
 
 // CCall is one RoundTrip call made by a caller goroutine.
@@ -137,6 +138,8 @@ type Client struct {
 	Events   int
 	EventLog []string
 	EnvSeq   int
+	// ReuseAfter: callers overwrite their Request and Response as soon as RoundTrip has returned
+	ReuseAfter bool
 }
 
 func NewClient(o ClientOpts) *Client {
@@ -212,6 +215,13 @@ func (r *callRunner) run() {
 	}
 	c.Body = append([]byte{}, c.res.Body()...)
 	c.Done = true
+	if r.h.ReuseAfter && c.BodyReader == nil {
+		// the request and the response are the caller's again: use them for something else at once
+		// same length as before, so that the bytes land in the buffer the connection was given
+		c.req.SetBodyString(strings.Repeat("Z", len(c.req.Body())))
+		c.req.Header.Set("X-Reused", "yes")
+		c.res.SetBodyString("and its response object too")
+	}
 }
 
 func (h *Client) step(what string) {
@@ -271,6 +281,13 @@ func (h *Client) SendRaw(i int, b []byte) {
 	h.step(fmt.Sprintf("server#%d sends %d raw bytes", i, len(b)))
 }
 
+// ServerStall: scripted server i stops reading; every further write of the client blocks.
+func (h *Client) ServerStall(i int) {
+	h.collect()
+	h.Conns[i].Stalled = true
+	h.Conns[i].C.SetOutStalled(true)
+}
+
 // ServerClose: the server closes connection i.
 func (h *Client) ServerClose(i int) {
 	h.Conns[i].C.PeerClose()
@@ -309,6 +326,9 @@ func (sc *SrvConn) stream(id uint32) *SrvStream {
 
 func (h *Client) collect() {
 	for _, sc := range h.Conns {
+		if sc.Stalled {
+			continue
+		}
 		b := sc.C.TakeAll()
 		if len(b) == 0 {
 			continue
